@@ -635,6 +635,7 @@ pub fn run(run: &mut Run) -> Result<(), String> {
                 plan.raws.push((Box::new(Checks { n: 2 }), b(0, 0)));
                 plan.raws.push((Box::new(DoubleCheck { kings: vec![4, 27], own_kinds: vec![Kind::P, Kind::N] }), b(0, 0)));
                 plan.raws.push((Box::new(TwoLines { enemy_kings: vec![35] }), b(1, 0)));
+                plan.raws.push((Box::new(EpUniverse::own_sliders()), b(1, 0)));
             } else {
                 plan.lines = Some(b(3, 2));
                 plan.raws.push((Box::new(DoubleCheck { kings: vec![4, 27, 0, 60], own_kinds: NONKING.to_vec() }), b(0, 0)));
@@ -667,6 +668,7 @@ pub fn run(run: &mut Run) -> Result<(), String> {
                 plan.raws.push((Box::new(Castle { extra: 1 }), b(1, 1)));
                 plan.raws.push((Box::new(EpUniverse::reduced()), b(1, 1)));
                 plan.raws.push((Box::new(TwoLines { enemy_kings: vec![35] }), b(1, 1)));
+                plan.raws.push((Box::new(EpUniverse::own_sliders()), b(1, 0)));
             } else {
                 plan.lines = Some(b(3, 2));
                 plan.raws.push((Box::new(TwoLines { enemy_kings: vec![35, 60, 63] }), b(1, 1)));
